@@ -668,19 +668,23 @@ def observe(env: Env, res: Result) -> dict:
 
 
 def _stored_class(reg: dict, env: Env, stored: list) -> str:
+    """Where the wrong stored filter comes from - facts only (object identity and content of the filters given in the history)."""
     if not stored:
         return "empty"
+    fs = getattr(reg["fn"], "filter_set", None)
     same_entry = [r for r in env.hook_regs if r is not reg and r["entry"] == reg["entry"]]
-    for other in same_entry:
+    sharing = [r for r in same_entry if getattr(r["fn"], "filter_set", None) is fs]
+    for other in sharing:
         if other["own"] and spec_terms(other["own"]) == stored:
             earlier = env.hook_regs.index(other) < env.hook_regs.index(reg)
             return "own_filter_of_earlier_registration_on_same_entry_point" if earlier else "own_filter_of_later_registration_on_same_entry_point"
     rejected = [r["spec"] for r in env.rejected_specs if r["entry"] == reg["entry"]]
-    if any(spec_terms(spec) == stored for spec in rejected):
-        return "filter_of_rejected_registration_on_same_entry_point"
+    own_and_rejected = union_terms([reg["own"]] + rejected)
+    if rejected and all(term in own_and_rejected for term in stored) and all(term in stored for term in spec_terms(reg["own"])):
+        return "own_filter_plus_filter_of_rejected_registration_on_same_entry_point"
     given = [r["own"] for r in same_entry + [reg]] + rejected
     if env.failed is not None and env.failed["entry"] == reg["entry"]:
-        given.append(env.failed["spec"])  # a rejected registration may have left a part of its filter behind
+        given.append(env.failed["spec"])  # a registration that raised may have left a part of its filter behind
     allowed = union_terms(given)
     if all(term in allowed for term in stored):
         return "mixture_of_filters_given_on_same_entry_point"
